@@ -109,7 +109,8 @@ MUTANTS = [
      "edits": [(E, "for c in [r, g, b] {", "for c in [b, g, r] {")]},
     {"id": "C06-thunk-always-colon-iterator", "prop": "C06", "expect": "SGR-COLOR/decoder::sgr_face/thunk-iterators",
      "edits": [(D, "                sgr_color(groups.by_ref().take(4))\n", "                sgr_color(&mut args)\n")]},
-    {"id": "C06-take-too-short", "prop": "C06", "expect": "SGR-COLOR/decoder::sgr_color/component-order",
+    # (the ';' form then yields no colour while the ':' form still does: the same diagnosis as for the thunk above)
+    {"id": "C06-take-too-short", "prop": "C06", "expect": "SGR-COLOR/decoder::sgr_face/thunk-iterators",
      "edits": [(D, "                sgr_color(groups.by_ref().take(4))\n", "                sgr_color(groups.by_ref().take(3))\n")]},
     {"id": "C06-take-5-reads-next-parameter", "prop": "C06", "expect": "SGR-COLOR/decoder::sgr_color/swallows-next-parameter",
      "edits": [(D, "                sgr_color(groups.by_ref().take(4))\n", "                sgr_color(groups.by_ref().take(5))\n")]},
@@ -131,7 +132,8 @@ MUTANTS = [
                 "                Some(true) => face.attrs = face.attrs.remove(flag),\n                Some(false) => face.attrs = face.attrs.insert(flag),\n")]},
     {"id": "C06-apply-blink-row-missing", "prop": "C06", "expect": "APPLY-TABLE/FaceModify::apply/coverage",
      "edits": [(F, "            (self.blink, FaceAttrs::BLINK),\n            (self.strike,", "            (self.strike,")]},
-    {"id": "C06-apply-bold-row-twice", "prop": "C06", "expect": "APPLY-TABLE/FaceModify::apply/duplicate-update",
+    # applying the bold update twice is idempotent (insert/remove of the same flag): behaviour-preserving, so the observed table must not mind
+    {"id": "C06-benign-apply-bold-row-twice", "prop": "C06", "benign": True,
      "edits": [(F, "            (self.italic, FaceAttrs::ITALIC),\n", "            (self.italic, FaceAttrs::ITALIC),\n            (self.bold, FaceAttrs::BOLD),\n")]},
     # ---- APPLY-SEMANTICS
     {"id": "C06-apply-reset-keeps-colours", "prop": "C06", "expect": "APPLY-SEMANTICS/FaceModify::apply/reset",
@@ -231,4 +233,204 @@ MUTANTS = [
      "edits": [(D, "let utf8_two = NFA::predicate(|b| b >> 5 == 0b110);", "let utf8_two = NFA::predicate(|b| (0xc2..=0xdf).contains(&b));")]},
     {"id": "C06-benign-utf8-tail-signed-compare", "prop": "C06", "benign": True,
      "edits": [(D, "let utf8_tail = NFA::predicate(|b| b >> 6 == 0b10);", "let utf8_tail = NFA::predicate(|b| (b as i8) < -64);")]},
+]
+
+# ---------------- behaviour-preserving refactorings the rules must stay silent on (robustness) ----------------
+_MATCH_FLAG = """                    match flag {
+                        None => {}
+                        Some(true) => self.chunks.push(on),
+                        Some(false) => self.chunks.push(off),
+                    }
+"""
+_SELECTOR_FN = """fn sgr_color_selector(sgr_color_type: &SGRColorType) -> &'static [u8] {
+    match sgr_color_type {
+        SGRColorType::Underline => b"58",
+        SGRColorType::Background => b"48",
+        SGRColorType::Foreground => b"38",
+    }
+}
+
+"""
+_SELECTOR_MATCH = """            match sgr_color_type {
+                SGRColorType::Foreground => chunks.push(b"38"),
+                SGRColorType::Background => chunks.push(b"48"),
+                SGRColorType::Underline => chunks.push(b"58"),
+            }
+"""
+_FACE_FLAGS = """                    for (flag, code) in [
+                        (FaceAttrs::BOLD, b"1"),
+                        (FaceAttrs::ITALIC, b"3"),
+                        (FaceAttrs::BLINK, b"5"),
+                        (FaceAttrs::REVERSE, b"7"),
+                        (FaceAttrs::STRIKE, b"9"),
+                    ] {
+                        if face.attrs.contains(flag) {
+                            self.chunks.push(code);
+                        }
+                    }
+"""
+_FACE_FLAGS_ITER = """                    [
+                        (FaceAttrs::BOLD, b"1"),
+                        (FaceAttrs::ITALIC, b"3"),
+                        (FaceAttrs::BLINK, b"5"),
+                        (FaceAttrs::REVERSE, b"7"),
+                        (FaceAttrs::STRIKE, b"9"),
+                    ]
+                    .iter()
+                    .filter(|(flag, _)| face.attrs.contains(*flag))
+                    .for_each(|(_, code)| self.chunks.push(*code));
+"""
+_NUMBER_DECODE = """    let mut result = 0usize;
+    for b in data.iter() {
+        match b {
+            b'0'..=b'9' => {
+                // numbers that do not fit are reported as unrecognized
+                result = result.checked_mul(10)?.checked_add((b - b'0') as usize)?;
+            }
+            _ => return None,
+        }
+    }
+    Some(result)
+"""
+_NUMBER_DECODE_FOLD = """    let mut result = Some(0usize);
+    data.iter().for_each(|b| {
+        result = match (result, b) {
+            (Some(acc), b'0'..=b'9') => acc.checked_mul(10).and_then(|v| v.checked_add((b - b'0') as usize)),
+            _ => None,
+        }
+    });
+    result
+"""
+_APPLY_LOOP = """        for (update, flag) in [
+            (self.bold, FaceAttrs::BOLD),
+            (self.italic, FaceAttrs::ITALIC),
+            (self.blink, FaceAttrs::BLINK),
+            (self.strike, FaceAttrs::STRIKE),
+        ] {
+            match update {
+                Some(true) => face.attrs = face.attrs.insert(flag),
+                Some(false) => face.attrs = face.attrs.remove(flag),
+                _ => {}
+            }
+        }
+"""
+_APPLY_ITER = """        let updates = [
+            (self.strike, FaceAttrs::STRIKE),
+            (self.blink, FaceAttrs::BLINK),
+            (self.italic, FaceAttrs::ITALIC),
+            (self.bold, FaceAttrs::BOLD),
+        ];
+        updates.into_iter().for_each(|(update, flag)| {
+            if let Some(on) = update {
+                face.attrs = if on {
+                    face.attrs.insert(flag)
+                } else {
+                    face.attrs.remove(flag)
+                };
+            }
+        });
+"""
+_APPLY_FAST_PATH = """        let flags = [self.bold, self.italic, self.blink, self.strike];
+        if !self.reset
+            && self.fg.is_none()
+            && self.bg.is_none()
+            && self.underline.is_none()
+            && flags.iter().all(Option::is_none)
+        {
+            return face;
+        }
+"""
+MUTANTS += [
+    # if-let + conditional expression instead of a three-arm match (seeded/benign/C05-B)
+    {"id": "C06-benign-flag-loop-if-let", "prop": "C06", "benign": True,
+     "edits": [(E, _MATCH_FLAG, "                    if let Some(enabled) = flag {\n                        self.chunks.push(if enabled { &on[..] } else { &off[..] });\n                    }\n")]},
+    # helpers extracted: flush of the parameter list, selector of a colour role (seeded/benign/C05-A, C06-A, C20-A)
+    {"id": "C06-benign-sgr-flush-helper", "prop": "C06", "benign": True,
+     "edits": [(E, "    fn kitty_level<W: Write>(&self, mut out: W, level: usize) -> Result<(), Error> {",
+                "    fn sgr_begin(&mut self) {\n        self.chunks.clear();\n    }\n\n    fn sgr_flush<W: Write>(&mut self, mut out: W) -> Result<(), Error> {\n        out.write_all(b\"\\x1b[\")?;\n        self.chunks.drain(b\";\", &mut out)?;\n        out.write_all(b\"m\")?;\n        Ok(())\n    }\n\n    fn kitty_level<W: Write>(&self, mut out: W, level: usize) -> Result<(), Error> {"),
+               (E, "            Face(face) => {\n                self.chunks.clear();\n", "            Face(face) => {\n                self.sgr_begin();\n"),
+               (E, "                out.write_all(b\"\\x1b[\")?;\n                self.chunks.drain(b\";\", &mut out)?;\n                out.write_all(b\"m\")?;\n            }\n            FaceModify(face_modify) => {\n                self.chunks.clear();\n",
+                "                self.sgr_flush(&mut out)?;\n            }\n            FaceModify(face_modify) => {\n                self.sgr_begin();\n"),
+               (E, "                if !self.chunks.is_empty() {\n                    out.write_all(b\"\\x1b[\")?;\n                    self.chunks.drain(b\";\", &mut out)?;\n                    out.write_all(b\"m\")?;\n                }",
+                "                if !self.chunks.is_empty() {\n                    self.sgr_flush(out)?;\n                }")]},
+    {"id": "C06-benign-colour-selector-helper", "prop": "C06", "benign": True,
+     "edits": [(E, "/// Encode color as SGR sequence\n", _SELECTOR_FN + "/// Encode color as SGR sequence\n"),
+               (E, "            let [r, g, b] = color.to_rgb();\n" + _SELECTOR_MATCH + "            chunks.push(b\"2\");\n            for c in [r, g, b] {\n                write!(chunks, \"{}\", c)?;",
+                "            let components = color.to_rgb();\n            chunks.push(sgr_color_selector(&sgr_color_type));\n            chunks.push(b\"2\");\n            for component in components {\n                write!(chunks, \"{}\", component)?;"),
+               (E, _SELECTOR_MATCH, "            chunks.push(sgr_color_selector(&sgr_color_type));\n")]},
+    # named constants for literals
+    {"id": "C06-benign-named-sgr-consts", "prop": "C06", "benign": True,
+     "edits": [(E, "/// Encode color as SGR sequence\n", "const SGR_RESET: &[u8] = b\"0\";\nconst SGR_SEP: &[u8] = b\";\";\n\n/// Encode color as SGR sequence\n"),
+               (E, "                self.chunks.clear();\n                self.chunks.push(b\"0\");", "                self.chunks.clear();\n                self.chunks.push(SGR_RESET);"),
+               (E, "                if face_modify.reset {\n                    self.chunks.push(b\"0\");", "                if face_modify.reset {\n                    self.chunks.push(SGR_RESET);"),
+               (E, "                if !self.chunks.is_empty() {\n                    out.write_all(b\"\\x1b[\")?;\n                    self.chunks.drain(b\";\", &mut out)?;",
+                "                if !self.chunks.is_empty() {\n                    write!(out, \"\\x1b[\")?;\n                    self.chunks.drain(SGR_SEP, &mut out)?;")]},
+    # loop <-> iterator chain: encoder table, decoder number parser, apply's table
+    {"id": "C06-benign-face-flags-iterator", "prop": "C06", "benign": True, "edits": [(E, _FACE_FLAGS, _FACE_FLAGS_ITER)]},
+    {"id": "C06-benign-number-decode-for-each", "prop": "C06", "benign": True, "edits": [(D, _NUMBER_DECODE, _NUMBER_DECODE_FOLD)]},
+    {"id": "C06-benign-apply-iterator", "prop": "C06", "benign": True, "edits": [(F, _APPLY_LOOP, _APPLY_ITER)]},
+    # while-let <-> loop + let-else; range pattern <-> guard
+    {"id": "C06-benign-decoder-loop-let-else", "prop": "C06", "benign": True,
+     "edits": [(D, "    while let Some(group) = groups.next() {\n        let mut args = group.split(|b| matches!(b, b':'));",
+                "    loop {\n        let Some(group) = groups.next() else { break };\n        let mut args = group.split(|b| *b == b':');")]},
+    {"id": "C06-benign-decoder-guard-arm", "prop": "C06", "benign": True,
+     "edits": [(D, "            Some(v @ 30..=37) => face.fg = Some(COLORS[v - 30]),", "            Some(v) if (30..=37).contains(&v) => face.fg = Some(COLORS[v - 30]),")]},
+    # exact fast path and statements under debug_assert! (seeded/benign/C06-C)
+    {"id": "C06-benign-apply-fast-path", "prop": "C06", "benign": True,
+     "edits": [(F, "    pub fn apply(&self, mut face: Face) -> Face {\n", "    pub fn apply(&self, mut face: Face) -> Face {\n" + _APPLY_FAST_PATH)]},
+    {"id": "C06-benign-chunks-mark-debug-assert", "prop": "C06", "benign": True,
+     "edits": [(E, "        self.offsets.push(self.buffer.len());\n", "        let end = self.buffer.len();\n        debug_assert!(self.offsets.last().map_or(true, |last| *last <= end));\n        self.offsets.push(end);\n"),
+               (E, "        self.buffer.extend(chunk);\n", "        self.buffer.extend_from_slice(chunk);\n")]},
+    # ... while the same shapes with a wrong value are still caught
+    {"id": "C06-flag-loop-if-let-swapped", "prop": "C06", "expect": "SGR-TABLE/TTYEncoder::encode/FaceModify/bold-on",
+     "edits": [(E, _MATCH_FLAG, "                    if let Some(enabled) = flag {\n                        self.chunks.push(if enabled { &off[..] } else { &on[..] });\n                    }\n")]},
+    {"id": "C06-selector-helper-wrong-role", "prop": "C06", "expect": "SGR-TABLE/TTYEncoder::encode/FaceModify/underline_color-colour",
+     "edits": [(E, "/// Encode color as SGR sequence\n", _SELECTOR_FN.replace('Underline => b"58"', 'Underline => b"48"') + "/// Encode color as SGR sequence\n"),
+               (E, "            let [r, g, b] = color.to_rgb();\n" + _SELECTOR_MATCH, "            let [r, g, b] = color.to_rgb();\n            chunks.push(sgr_color_selector(&sgr_color_type));\n"),
+               (E, _SELECTOR_MATCH, "            chunks.push(sgr_color_selector(&sgr_color_type));\n")]},
+    {"id": "C06-apply-iterator-wrong-direction", "prop": "C06", "expect": "APPLY-TABLE/FaceModify::apply/set-clear-arms",
+     "edits": [(F, _APPLY_LOOP, _APPLY_ITER.replace("face.attrs = if on {", "face.attrs = if !on {"))]},
+    {"id": "C06-apply-fast-path-ignores-underline", "prop": "C06", "expect": "APPLY-SEMANTICS/FaceModify::apply/underline",
+     "edits": [(F, "    pub fn apply(&self, mut face: Face) -> Face {\n", "    pub fn apply(&self, mut face: Face) -> Face {\n" + _APPLY_FAST_PATH.replace("            && self.underline.is_none()\n", ""))]},
+]
+
+_UNDERLINE_MATCH = """                match face_modify.underline {
+                    None => {}
+                    Some(UnderlineStyle::None) => self.chunks.push(b"24"),
+                    Some(UnderlineStyle::Straight) => self.chunks.push(b"4"),
+                    Some(UnderlineStyle::Double) => self.chunks.push(b"4:2"),
+                    Some(UnderlineStyle::Curly) => self.chunks.push(b"4:3"),
+                    Some(UnderlineStyle::Dotted) => self.chunks.push(b"4:4"),
+                    Some(UnderlineStyle::Dashed) => self.chunks.push(b"4:5"),
+                }
+"""
+_UNDERLINE_IF_LET = """                if let Some(style) = face_modify.underline {
+                    let code: &[u8] = match style {
+                        UnderlineStyle::Dashed => b"4:5",
+                        UnderlineStyle::Dotted => b"4:4",
+                        UnderlineStyle::Curly => b"4:3",
+                        UnderlineStyle::Double => b"4:2",
+                        UnderlineStyle::Straight => b"4",
+                        UnderlineStyle::None => b"24",
+                    };
+                    self.chunks.push(code);
+                }
+"""
+_UNDERLINE_TABLE = """                if let Some(style) = face_modify.underline {
+                    const CODES: [&[u8]; 6] = [b"24", b"4", b"4:2", b"4:3", b"4:4", b"4:5"];
+                    self.chunks.push(CODES[style as usize]);
+                }
+"""
+MUTANTS += [
+    {"id": "C06-benign-underline-if-let-match-expr", "prop": "C06", "benign": True, "edits": [(E, _UNDERLINE_MATCH, _UNDERLINE_IF_LET)]},
+    {"id": "C06-underline-if-let-match-expr-swapped", "prop": "C06", "expect": "SGR-TABLE/TTYEncoder::encode/FaceModify/underline-D",
+     "edits": [(E, _UNDERLINE_MATCH, _UNDERLINE_IF_LET.replace('Dashed => b"4:5"', 'Dashed => b"4:4"').replace('Dotted => b"4:4"', 'Dotted => b"4:5"'))]},
+    {"id": "C06-benign-underline-code-table", "prop": "C06", "benign": True, "edits": [(E, _UNDERLINE_MATCH, _UNDERLINE_TABLE)]},
+    # components written without the fmt machinery (a correct version of seeded/C06-E)
+    {"id": "C06-benign-components-to-string", "prop": "C06", "benign": True,
+     "edits": [(E, "            for c in [r, g, b] {\n                write!(chunks, \"{}\", c)?;\n                chunks.mark();\n            }",
+                "            for c in [r, g, b] {\n                chunks.push(c.to_string().as_bytes());\n            }")]},
+    {"id": "C06-components-hand-rolled-digits-off-by-one", "prop": "C06", "expect": "SGR-COLOR/encoder::color_sgr_encode/component-value",
+     "edits": [(E, "            for c in [r, g, b] {\n                write!(chunks, \"{}\", c)?;\n                chunks.mark();\n            }",
+                "            for c in [r, g, b] {\n                let mut digits = Vec::new();\n                if c > 100 {\n                    digits.push(b'0' + c / 100);\n                }\n                if c > 10 {\n                    digits.push(b'0' + c / 10 % 10);\n                }\n                digits.push(b'0' + c % 10);\n                chunks.push(&digits);\n            }")]},
 ]
